@@ -2,6 +2,7 @@ CONSTANTS
     Txns = {"t1", "t2", "t3"}
     Keys = {"k1", "k2"}
     Wr <- MCWr
+    Dup <- MCDup
     Slots = 3
     GcInterval = 2
     MaxFaults = 1
